@@ -26,7 +26,7 @@ func init() {
 
 func ruleF1(c *Ctx, id string) {
 	V, P, R := c.V, c.P, c.R
-	R.Rule(id, "FreeInode is preceded by Resize(0) of the same inode; the boolean result of every Inode.Resize call is consumed by a branch whose true side starts the shrinker for that inode", 3)
+	R.Rule(id, "FreeInode is preceded by Resize(0) of the same inode; the boolean result of every Inode.Resize call is consumed by a branch whose true side starts the shrinker for that inode; the result of every Inode.Shrink call is handed on", 5)
 	start := c.fn(id, "shrinker.(*ShrinkerSt).StartShrinker")
 	if V.Resize == nil || V.FreeInode == nil || start == nil {
 		return
@@ -63,6 +63,27 @@ func ruleF1(c *Ctx, id string) {
 			falseEdge := boolEdge(fn, cv, false)
 			ok := MustAfterE(fn, isStart, nil, falseEdge)(call)
 			R.Check(ok, id, FuncName(fn)+"|Resize true => StartShrinker", P.Pos(call.Pos()), "every path on which Resize returned true starts the shrinker for that inode", "must-follow except on the result==false edge", "a path ignores 'needs shrinking': the blocks beyond the new size are never freed")
+		}
+		// Shrink may stop early (log space): its 'more to do' result must reach the caller or a loop test
+		for _, call := range P.CallsIn(fn, funcIs(V.Shrink)) {
+			cv := call.(*ssa.Call)
+			cl := fwdClosure([]ssa.Value{cv}, false)
+			handed := false
+			for _, b := range fn.Blocks {
+				switch x := b.Instrs[len(b.Instrs)-1].(type) {
+				case *ssa.Return:
+					for _, res := range x.Results {
+						if cl[res] {
+							handed = true
+						}
+					}
+				case *ssa.If:
+					if cl[x.Cond] {
+						handed = true
+					}
+				}
+			}
+			R.Check(handed, id, FuncName(ownerOf(fn))+"|Shrink result handed on", P.Pos(call.Pos()), "the 'more to free' result of Inode.Shrink is returned to the caller or tested", "flows into a return value or a branch", "Shrink can stop early when the log fills up; dropping its result leaves the remaining blocks allocated for ever")
 		}
 	}
 }
